@@ -18,8 +18,8 @@ TraceInit == Init /\ l = 1 /\ pend = {}
 Reset == IsEv("Reset") /\ nver' = 0 /\ res' = NoRes
          /\ chain' = [r \in Replica |-> [i \in Idents |-> <<>>]] /\ tchain' = [r \in Replica |-> [i \in Idents |-> <<>>]]
          /\ hchain' = [i \in Idents |-> <<>>] /\ pend' = {}
-TNew == pend = {} /\ UNCHANGED pend /\ IsEv("NewIdent") /\ ev.err = "" /\ NewIdent(ev.r) /\ StateMatches(ev)
-TMutate == pend = {} /\ UNCHANGED pend /\ IsEv("Mutate") /\ ev.err = "" /\ Mutate(ev.r, ev.i) /\ StateMatches(ev)
+TNew == pend = {} /\ UNCHANGED pend /\ IsEv("NewIdent") /\ ev.err = "" /\ ev.idstable /\ NewIdent(ev.r, ev.k) /\ StateMatches(ev)
+TMutate == pend = {} /\ UNCHANGED pend /\ IsEv("Mutate") /\ ev.err = "" /\ ev.idstable /\ Mutate(ev.r, ev.i) /\ StateMatches(ev)
 TPush == pend = {} /\ UNCHANGED pend /\ IsEv("Push") /\ Push(ev.r) /\ res'.ok = ev.ok /\ StateMatches(ev)
 TFetch == pend = {} /\ UNCHANGED pend /\ IsEv("Fetch") /\ ev.err = "" /\ Fetch(ev.r) /\ StateMatches(ev)
 (* MergeAll reports on every remote-tracking identity: one Merge event each, between Begin and End *)
